@@ -1,5 +1,5 @@
 """Negative controls: property-preserving changes in /verif/controls/<name>/patch.diff must NOT be reported.
-usage: negtest.py [--checks C01,..|all] [name ...]   (default: all 18 quick checks)"""
+usage: negtest.py [--checks C01,..|all] [--jobs N] [name ...]   (default: all 18 quick checks)"""
 import json, os, shutil, subprocess, sys, tempfile, time
 
 V = os.path.dirname(os.path.dirname(os.path.abspath(__file__)))
@@ -47,16 +47,20 @@ def run_one(name, checks):
 
 
 if __name__ == "__main__":
+    from concurrent.futures import ThreadPoolExecutor
     args = sys.argv[1:]
-    checks = ALL
-    if args and args[0] == "--checks":
-        checks = ALL if args[1] == "all" else args[1].split(",")
+    checks, jobs = ALL, 1
+    while args and args[0] in ("--checks", "--jobs"):
+        if args[0] == "--checks":
+            checks = ALL if args[1] == "all" else args[1].split(",")
+        else:
+            jobs = int(args[1])
         args = args[2:]
-    for n in args or sorted(os.listdir(os.path.join(V, "controls"))):
-        if not os.path.exists(os.path.join(V, "controls", n, "patch.diff")):
-            continue
-        r = run_one(n, checks)
-        alarms = {c: v for c, v in r["checks"].items() if v["rc"] != 0}
-        print("%-10s tests: %s alarms: %s %s" % (n, r.get("repo_tests_with_patch"), sorted(alarms) or "none", r.get("error", "")))
-        for c, v in alarms.items():
-            print("    %s rc=%d %s %s" % (c, v["rc"], v["first"], v["machinery"]))
+    names = [n for n in (args or sorted(os.listdir(os.path.join(V, "controls"))))
+             if os.path.exists(os.path.join(V, "controls", n, "patch.diff"))]
+    with ThreadPoolExecutor(jobs) as ex:
+        for r in ex.map(lambda n: run_one(n, checks), names):
+            alarms = {c: v for c, v in r["checks"].items() if v["rc"] != 0}
+            print("%-10s tests: %s alarms: %s %s" % (r["name"], r.get("repo_tests_with_patch"), sorted(alarms) or "none", r.get("error", "")), flush=True)
+            for c, v in alarms.items():
+                print("    %s rc=%d %s %s" % (c, v["rc"], v["first"], v["machinery"]), flush=True)
